@@ -197,7 +197,11 @@ Inductive dtarget := DT | DV | DM.       (* dTemperaturedChi, dvdChi, dMsqdChi *
 Inductive prof := PT | PV | PM.          (* temperature, velocity, m^2(field) profile *)
 Record dfact := mk_dfact { f_mode : dmode; f_target : dtarget;
                            f_profiles : list prof;     (* profiles it is computed from *)
-                           f_deriv : bool }.           (* through a derivative operator *)
+                           f_deriv : bool;             (* through a derivative operator *)
+                           f_along_chi : bool }.       (* that operator acts along chi (axis "z":
+                                                          derivative(axis of "z") / the findiff matrix
+                                                          built on chiFull) and the result is sliced
+                                                          [1:-1] on the position axis only *)
 
 Definition profile_of (t : dtarget) : prof :=
   match t with DT => PT | DV => PV | DM => PM end.
@@ -207,7 +211,7 @@ Definition target_eqb a b := match a, b with DT, DT | DV, DV | DM, DM => true | 
 Definition prof_eqb a b := match a, b with PT, PT | PV, PV | PM, PM => true | _, _ => false end.
 Definition fact_ok (f : dfact) : bool :=
   match f_profiles f with
-  | [p] => prof_eqb p (profile_of (f_target f)) && f_deriv f
+  | [p] => prof_eqb p (profile_of (f_target f)) && f_deriv f && f_along_chi f
   | _ => false
   end.
 Definition find_fact (fs : list dfact) m t : option dfact :=
@@ -222,7 +226,7 @@ Definition facts_ok (fs : list dfact) : bool :=
 
 Lemma facts_ok_sound fs : facts_ok fs = true ->
   forall m t, exists f, In f fs /\ f_mode f = m /\ f_target f = t /\
-                        f_profiles f = [profile_of t] /\ f_deriv f = true.
+                        f_profiles f = [profile_of t] /\ f_deriv f = true /\ f_along_chi f = true.
 Proof.
   intros H m t. unfold facts_ok in H. apply andb_prop in H as [H _].
   rewrite forallb_forall in H.
@@ -234,12 +238,10 @@ Proof.
   exists f. split; [assumption|].
   assert (f_mode f = m) by (destruct (f_mode f), m; cbn in Hm; congruence).
   assert (f_target f = t) by (destruct (f_target f), t; cbn in Ht; congruence).
-  subst. repeat split.
-  - unfold fact_ok in H. destruct (f_profiles f) as [|p [|q l]]; try discriminate.
-    apply andb_prop in H as [H _].
-    destruct p, (f_target f); cbn in H; try discriminate; reflexivity.
-  - unfold fact_ok in H. destruct (f_profiles f) as [|p [|q l]]; try discriminate.
-    now apply andb_prop in H as [_ H].
+  subst. unfold fact_ok in H. destruct (f_profiles f) as [|p [|q l]]; try discriminate.
+  apply andb_prop in H as [H H3]. apply andb_prop in H as [H1 H2].
+  repeat split; try assumption.
+  destruct p, (f_target f); cbn in H1; try discriminate; reflexivity.
 Qed.
 
 (** * Copy the solver, mutate the copy *)
@@ -247,22 +249,25 @@ Inductive basis := Cardinal | Chebyshev.
 Inductive copykind := Deep | Shallow | Alias.
 Inductive who := Wcopy | Wowner.
 Inductive sop := SetDerivs | SetBasisN | SetBasisM | ChangeCollBasis | Solve.
+Inductive frame := WallFrame | PlasmaFrame.
 
-(** a BoltzmannSolver object: scalar attributes and a REFERENCE to its CollisionArray *)
+(** a BoltzmannSolver object: scalar attributes, a REFERENCE to its CollisionArray and a
+    REFERENCE to its (stored, boosted) BoltzmannBackground *)
 Record solver := mk_solver { s_derivs : dmode; s_basisM : basis; s_basisN : basis;
-                             s_coll : nat }.
-(** the heap: in which momentum basis the collision data stored at a location are *)
-Definition heap := nat -> basis.
-Definition upd (h : heap) (l : nat) (b : basis) : heap :=
+                             s_coll : nat; s_bg : nat }.
+(** the heap: in which momentum basis the collision data stored at a location are; in which
+    frame the velocity profile / velocityWall of a background object are *)
+Record heap := mk_heap { h_coll : nat -> basis; h_bg : nat -> frame * frame }.
+Definition updf {A} (h : nat -> A) (l : nat) (b : A) : nat -> A :=
   fun l' => if Nat.eqb l' l then b else h l'.
 
 Record world := mk_world { owner : solver; cpy : solver; hp : heap }.
 
 Definition set_attr (o : sop) (s : solver) : solver :=
   match o with
-  | SetDerivs => mk_solver FiniteDiff (s_basisM s) (s_basisN s) (s_coll s)
-  | SetBasisN => mk_solver (s_derivs s) (s_basisM s) Cardinal (s_coll s)
-  | SetBasisM => mk_solver (s_derivs s) Cardinal (s_basisN s) (s_coll s)
+  | SetDerivs => mk_solver FiniteDiff (s_basisM s) (s_basisN s) (s_coll s) (s_bg s)
+  | SetBasisN => mk_solver (s_derivs s) (s_basisM s) Cardinal (s_coll s) (s_bg s)
+  | SetBasisM => mk_solver (s_derivs s) Cardinal (s_basisN s) (s_coll s) (s_bg s)
   | _ => s
   end.
 
@@ -272,7 +277,8 @@ Definition step (aliased inplace : bool) (w : world) (op : who * sop) : world :=
   match o with
   | ChangeCollBasis =>
       let l := s_coll (match x with Wcopy => cpy w | Wowner => owner w end) in
-      mk_world (owner w) (cpy w) (if inplace then upd (hp w) l Cardinal else hp w)
+      mk_world (owner w) (cpy w)
+               (if inplace then mk_heap (updf (h_coll (hp w)) l Cardinal) (h_bg (hp w)) else hp w)
   | Solve => w
   | _ =>
       match x with
@@ -283,68 +289,112 @@ Definition step (aliased inplace : bool) (w : world) (op : who * sop) : world :=
       end
   end.
 
-Definition make_copy (k : copykind) (fresh : nat) (s : solver) (h : heap) : world :=
+(** copy.deepcopy: fresh CollisionArray and background objects.  [structural] = no class
+    reachable from the solver defines a copy hook (__deepcopy__, __copy__, __reduce__, ...);
+    only then is the content of the new objects known to be the content of the old ones
+    (otherwise it is whatever the hook returns: [junk]). *)
+Definition make_copy (k : copykind) (structural : bool) (junk : basis * (frame * frame))
+  (fc fb : nat) (s : solver) (h : heap) : world :=
   match k with
-  | Deep => mk_world s (mk_solver (s_derivs s) (s_basisM s) (s_basisN s) fresh)
-                     (upd h fresh (h (s_coll s)))
+  | Deep => mk_world s (mk_solver (s_derivs s) (s_basisM s) (s_basisN s) fc fb)
+                     (mk_heap (updf (h_coll h) fc (if structural then h_coll h (s_coll s) else fst junk))
+                              (updf (h_bg h) fb (if structural then h_bg h (s_bg s) else snd junk)))
   | _ => mk_world s s h
   end.
 
-Definition run (k : copykind) (inplace : bool) (ops : list (who * sop)) (fresh : nat)
-  (s : solver) (h : heap) : world :=
+Definition run (k : copykind) (structural inplace : bool) junk (ops : list (who * sop))
+  (fc fb : nat) (s : solver) (h : heap) : world :=
   fold_left (step (match k with Alias => true | _ => false end) inplace) ops
-            (make_copy k fresh s h).
+            (make_copy k structural junk fc fb s h).
 
-(** what a later spectral solve of the owner depends on *)
-Definition observable (s : solver) (h : heap) := (s_derivs s, s_basisM s, s_basisN s, h (s_coll s)).
+(** what a solve with this solver object depends on *)
+Definition obs := (dmode * basis * basis * basis * (frame * frame))%type.
+Definition observable (s : solver) (h : heap) : obs :=
+  (s_derivs s, s_basisM s, s_basisN s, h_coll h (s_coll s), h_bg h (s_bg s)).
+(** the same operations on the observable of a faithful private copy *)
+Definition obs_step (inplace : bool) (ob : obs) (o : sop) : obs :=
+  let '(d, bm, bn, cb, bg) := ob in
+  match o with
+  | SetDerivs => (FiniteDiff, bm, bn, cb, bg)
+  | SetBasisN => (d, bm, Cardinal, cb, bg)
+  | SetBasisM => (d, Cardinal, bn, cb, bg)
+  | ChangeCollBasis => (d, bm, bn, (if inplace then Cardinal else cb), bg)
+  | Solve => ob
+  end.
 
-Definition fd_safe (k : copykind) (ops : list (who * sop)) : bool :=
-  match k with Deep => forallb (fun op => match fst op with Wcopy => true | _ => false end) ops
-          | _ => false end.
+Definition only_copy (ops : list (who * sop)) : bool :=
+  forallb (fun op => match fst op with Wcopy => true | _ => false end) ops.
+Definition fd_safe (k : copykind) (structural : bool) (ops : list (who * sop)) : bool :=
+  match k with Deep => structural && only_copy ops | _ => false end.
 
-Lemma deep_invariant inplace ops fresh s h w :
-  fresh <> s_coll s ->
-  forallb (fun op => match fst op with Wcopy => true | _ => false end) ops = true ->
-  owner w = s -> s_coll (cpy w) = fresh -> hp w (s_coll s) = h (s_coll s) ->
+Lemma deep_invariant inplace ops fc fb s h w :
+  fc <> s_coll s -> fb <> s_bg s -> only_copy ops = true ->
+  owner w = s -> s_coll (cpy w) = fc -> s_bg (cpy w) = fb ->
+  h_coll (hp w) (s_coll s) = h_coll h (s_coll s) -> h_bg (hp w) (s_bg s) = h_bg h (s_bg s) ->
   let w' := fold_left (step false inplace) ops w in
-  owner w' = s /\ hp w' (s_coll s) = h (s_coll s).
+  owner w' = s /\ observable (owner w') (hp w') = observable s h /\
+  observable (cpy w') (hp w') = fold_left (obs_step inplace) (map snd ops) (observable (cpy w) (hp w)).
 Proof.
-  intros Hf. revert w. induction ops as [|[x o] ops IH]; intros w Hall Ho Hc Hh; cbn.
-  - now split.
+  intros Hfc Hfb. revert w. induction ops as [|[x o] ops IH]; intros w Hall Ho Hc Hb Hh Hg; cbn [fold_left map].
+  - cbv zeta. split; [assumption|]. split; [|reflexivity]. unfold observable. rewrite Ho, Hh, Hg. reflexivity.
   - cbn in Hall. apply andb_prop in Hall as [Hx Hall]. destruct x; [|discriminate].
-    apply IH; try assumption.
+    cbn [snd].
+    assert (E : observable (cpy (step false inplace w (Wcopy, o))) (hp (step false inplace w (Wcopy, o)))
+                = obs_step inplace (observable (cpy w) (hp w)) o).
+    { destruct o; cbn; unfold observable; cbn; try reflexivity.
+      destruct inplace; cbn; [|reflexivity]. unfold updf. rewrite Nat.eqb_refl. reflexivity. }
+    rewrite <- E. apply IH; try assumption.
     + destruct o; cbn; assumption.
-    + destruct o; cbn; try assumption; destruct (cpy w); cbn in *; assumption.
-    + destruct o; cbn; try assumption. destruct inplace; [|assumption].
-      unfold upd. rewrite Hc.
-      destruct (Nat.eqb_spec (s_coll s) fresh); [congruence|assumption].
+    + destruct o; cbn; assumption.
+    + destruct o; cbn; assumption.
+    + destruct o; cbn; try assumption. destruct inplace; cbn; [|assumption].
+      unfold updf. rewrite Hc. destruct (Nat.eqb_spec (s_coll s) fc); [congruence|assumption].
+    + destruct o; cbn; try assumption. destruct inplace; cbn; assumption.
 Qed.
 
-Theorem fd_safe_sound k inplace ops fresh s h :
-  fd_safe k ops = true -> fresh <> s_coll s ->
-  let w := run k inplace ops fresh s h in
-  owner w = s /\ observable (owner w) (hp w) = observable s h.
+(** owner untouched AND the copy is a faithful copy carrying exactly the overrides *)
+Theorem fd_safe_sound k structural inplace junk ops fc fb s h :
+  fd_safe k structural ops = true -> fc <> s_coll s -> fb <> s_bg s ->
+  let w := run k structural inplace junk ops fc fb s h in
+  owner w = s /\ observable (owner w) (hp w) = observable s h /\
+  observable (cpy w) (hp w) = fold_left (obs_step inplace) (map snd ops) (observable s h).
 Proof.
-  intros Hs Hf. destruct k; try discriminate. cbn in Hs.
-  unfold run.
-  destruct (deep_invariant inplace ops fresh s h (make_copy Deep fresh s h) Hf Hs)
-    as [H1 H2]; try reflexivity.
-  - cbn. unfold upd. destruct (Nat.eqb_spec (s_coll s) fresh); [congruence|reflexivity].
-  - cbn zeta. split; [assumption|]. unfold observable. rewrite H1, H2. reflexivity.
+  intros Hs Hfc Hfb. destruct k; try discriminate. cbn in Hs.
+  apply andb_prop in Hs as [Hst Hs]. subst structural. unfold run.
+  assert (E0 : observable (cpy (make_copy Deep true junk fc fb s h)) (hp (make_copy Deep true junk fc fb s h))
+               = observable s h).
+  { cbn. unfold observable, updf; cbn. rewrite !Nat.eqb_refl. reflexivity. }
+  assert (D : let w' := fold_left (step false inplace) ops (make_copy Deep true junk fc fb s h) in
+    owner w' = s /\ observable (owner w') (hp w') = observable s h /\
+    observable (cpy w') (hp w') = fold_left (obs_step inplace) (map snd ops)
+      (observable (cpy (make_copy Deep true junk fc fb s h)) (hp (make_copy Deep true junk fc fb s h)))).
+  { apply (deep_invariant inplace ops fc fb s h); try assumption; try reflexivity.
+    - cbn. unfold updf. destruct (Nat.eqb_spec (s_coll s) fc); [congruence|reflexivity].
+    - cbn. unfold updf. destruct (Nat.eqb_spec (s_bg s) fb); [congruence|reflexivity]. }
+  rewrite E0 in D. exact D.
 Qed.
 
 (** the model is discriminating: a shallow copy and an in-place basis change corrupt a
-    Chebyshev-momentum-basis owner (its collision data silently become Cardinal) *)
+    Chebyshev-momentum-basis owner (its collision data silently become Cardinal) ... *)
 Example shallow_copy_breaks_owner :
-  let s := mk_solver Spectral Cardinal Chebyshev 0 in
-  let h : heap := fun _ => Chebyshev in
-  let w := run Shallow true [(Wcopy, SetDerivs); (Wcopy, SetBasisN);
-                              (Wcopy, ChangeCollBasis); (Wcopy, Solve)] 1 s h in
+  let s := mk_solver Spectral Cardinal Chebyshev 0 0 in
+  let h := mk_heap (fun _ => Chebyshev) (fun _ => (PlasmaFrame, PlasmaFrame)) in
+  let w := run Shallow true true (Cardinal, (WallFrame, WallFrame))
+               [(Wcopy, SetDerivs); (Wcopy, SetBasisN); (Wcopy, ChangeCollBasis); (Wcopy, Solve)]
+               1 1 s h in
   owner w = s /\ observable (owner w) (hp w) <> observable s h.
-Proof. cbn. split; [reflexivity|]. unfold observable, upd; cbn. congruence. Qed.
+Proof. cbn. split; [reflexivity|]. unfold observable, updf; cbn. congruence. Qed.
+(** ... and a deep copy through a hook that rebuilds the background in the wall frame gives a
+    copy that is NOT the owner with the overrides (its velocityWall is in the wrong frame) *)
+Example deepcopy_hook_breaks_copy :
+  let s := mk_solver Spectral Cardinal Chebyshev 0 0 in
+  let h := mk_heap (fun _ => Chebyshev) (fun _ => (PlasmaFrame, PlasmaFrame)) in
+  let ops := [(Wcopy, SetDerivs); (Wcopy, SetBasisN); (Wcopy, ChangeCollBasis); (Wcopy, Solve)] in
+  let w := run Deep false true (Chebyshev, (PlasmaFrame, WallFrame)) ops 1 1 s h in
+  observable (cpy w) (hp w) <> fold_left (obs_step true) (map snd ops) (observable s h).
+Proof. cbn. unfold observable, updf; cbn. congruence. Qed.
 
 (** * setBackground: store a copy of the caller's background, boost the copy *)
-Inductive frame := WallFrame | PlasmaFrame.
 (** a BoltzmannBackground object: a REFERENCE to its velocity array and the scalar
     velocityWall (here: in which frame it is expressed) *)
 Record bgobj := mk_bg { bg_vel : nat; bg_vw : frame }.
@@ -360,10 +410,13 @@ Definition boost (rebinds : bool) (fresh : nat) (o : bgobj) (h : fheap) : bgobj 
   else (mk_bg (bg_vel o) PlasmaFrame, fupd h (bg_vel o) PlasmaFrame).
 
 (** caller object after `setBackground(caller)`; [target]: on which object the boost is called *)
-Definition set_background (k : copykind) (target : who) (rebinds : bool) (f1 f2 : nat)
+Definition set_background (k : copykind) (structural : bool) (junk : frame * frame)
+  (target : who) (rebinds : bool) (f1 f2 : nat)
   (caller : bgobj) (h : fheap) : bgobj * bgobj * fheap :=
   let '(stored, h1) := match k with
-                       | Deep => (mk_bg f1 (bg_vw caller), fupd h f1 (h (bg_vel caller)))
+                       | Deep => if structural
+                                 then (mk_bg f1 (bg_vw caller), fupd h f1 (h (bg_vel caller)))
+                                 else (mk_bg f1 (fst junk), fupd h f1 (snd junk))
                        | _ => (caller, h) end in
   match target, k with
   | Wowner, _ => let '(c', h2) := boost rebinds f2 caller h1 in
@@ -373,27 +426,260 @@ Definition set_background (k : copykind) (target : who) (rebinds : bool) (f1 f2 
   end.
 
 Definition bg_observable (o : bgobj) (h : fheap) := (bg_vw o, h (bg_vel o)).
-Definition bg_safe (k : copykind) (target : who) (rebinds : bool) : bool :=
+Definition bg_safe (k : copykind) (structural : bool) (target : who) (rebinds : bool) : bool :=
   match target, k with
-  | Wcopy, Deep => true
+  | Wcopy, Deep => structural
   | Wcopy, Shallow => rebinds
   | _, _ => false
   end.
 
-Theorem bg_safe_sound k target rebinds f1 f2 caller h :
-  bg_safe k target rebinds = true -> f1 <> bg_vel caller -> f2 <> bg_vel caller ->
-  let '(c', s', h') := set_background k target rebinds f1 f2 caller h in
+Theorem bg_safe_sound k structural junk target rebinds f1 f2 caller h :
+  bg_safe k structural target rebinds = true -> f1 <> bg_vel caller -> f2 <> bg_vel caller ->
+  let '(c', s', h') := set_background k structural junk target rebinds f1 f2 caller h in
   bg_observable c' h' = bg_observable caller h /\
   bg_observable s' h' = (PlasmaFrame, PlasmaFrame).
 Proof.
   intros Hs H1 H2.
-  destruct target, k, rebinds; try discriminate; cbn;
+  destruct target, k, structural, rebinds; try discriminate; cbn;
     unfold bg_observable, fupd; cbn; rewrite ?Nat.eqb_refl;
     repeat match goal with |- context [Nat.eqb ?a ?b] =>
       destruct (Nat.eqb_spec a b); try congruence end; split; reflexivity.
 Qed.
 
 Example alias_background_is_boosted_for_the_caller :
-  let '(c', _, h') := set_background Alias Wcopy true 1 2 (mk_bg 0 WallFrame) (fun _ => WallFrame) in
+  let '(c', _, h') := set_background Alias true (WallFrame, WallFrame) Wcopy true 1 2
+                        (mk_bg 0 WallFrame) (fun _ => WallFrame) in
   bg_observable c' h' <> bg_observable (mk_bg 0 WallFrame) (fun _ => WallFrame).
 Proof. cbn. unfold bg_observable; cbn. congruence. Qed.
+
+(** * A constant vector is annihilated by any matrix whose rows sum to zero (finite-difference
+    weights; for the spectral matrix see Props/C12.v, which uses C16's exactness theorem) *)
+Lemma rows_sum_zero_const n (D : nat -> nat -> R) (c : R) i :
+  rsum n (fun j => D i j) = 0 -> rsum n (fun j => D i j * c) = 0.
+Proof.
+  intros H. transitivity (rsum n (fun j => D i j) * c); [apply rsum_scal_r|rewrite H; ring].
+Qed.
+
+(** * AST facts about solveBoltzmannEquations and about the uses of deltaF *)
+Inductive sstep := SBuild | SSolveDense | SReshapeC | SReturn.
+Inductive saxis := AxParticles | AxM1 | AxN1.     (* len(particles), M-1, N-1 *)
+Definition saxis_eqb a b := match a, b with AxParticles, AxParticles | AxM1, AxM1 | AxN1, AxN1 => true
+                                       | _, _ => false end.
+Fixpoint saxes_eqb (a b : list saxis) : bool :=
+  match a, b with [], [] => true | x :: a', y :: b' => saxis_eqb x y && saxes_eqb a' b' | _, _ => false end.
+Definition sstep_eqb a b := match a, b with SBuild, SBuild | SSolveDense, SSolveDense
+                                       | SReshapeC, SReshapeC | SReturn, SReturn => true | _, _ => false end.
+Fixpoint ssteps_eqb (a b : list sstep) : bool :=
+  match a, b with [], [] => true | x :: a', y :: b' => sstep_eqb x y && ssteps_eqb a' b' | _, _ => false end.
+(** the body is build -> np.linalg.solve(operator, source) in double precision -> C-order
+    reshape to the SAME axes, in the same order, that buildLinearEquations flattened *)
+Definition solve_ok (steps : list sstep) (shape flat : list saxis) : bool :=
+  ssteps_eqb steps [SBuild; SSolveDense; SReshapeC; SReturn]
+  && saxes_eqb shape [AxParticles; AxM1; AxN1; AxN1] && saxes_eqb flat shape.
+
+Inductive dmeth := MgetDeltas | McheckLinearization | MestimateTruncationError.
+Inductive duse :=
+| UNoneDefault                (* `if deltaF is None: deltaF = self.solveBoltzmannEquations()` *)
+| UPassToSelf                 (* handed to another of the three methods *)
+| UResultField                (* BoltzmannResults(deltaF=deltaF, ...) *)
+| UPolyThenChange (allCardinal : bool)
+      (* Polynomial(deltaF, grid, (Array, basisM, basisN, basisN), .., False) immediately
+         followed by changeBasis to all-Cardinal / all-Chebyshev *)
+| UTimesBuilt                 (* np.sum(X * deltaF[None x4, ...], axis=(4,5,6,7)), X returned by
+                                 buildLinearEquations (operator, liouville or collision) *)
+| URaw.                       (* anything else: deltaF used as if it were grid values *)
+Definition duse_ok (m : dmeth) (u : duse) : bool :=
+  match u, m with
+  | URaw, _ => false
+  | UPolyThenChange c, MestimateTruncationError => negb c
+  | UPolyThenChange c, _ => c
+  | _, _ => true
+  end.
+Definition duses_ok (l : list (dmeth * duse)) : bool := forallb (fun p => duse_ok (fst p) (snd p)) l.
+(** every method converts deltaF before integrating it *)
+Definition has_poly (m : dmeth) (l : list (dmeth * duse)) : bool :=
+  existsb (fun p => match fst p, m, snd p with
+                    | MgetDeltas, MgetDeltas, UPolyThenChange _
+                    | McheckLinearization, McheckLinearization, UPolyThenChange _
+                    | MestimateTruncationError, MestimateTruncationError, UPolyThenChange _ => true
+                    | _, _, _ => false end) l.
+
+(** * Finite sums over an arbitrary index list, linear systems on it, change of basis *)
+Section LSum.
+Context {I : Type}.
+Fixpoint lsum (l : list I) (f : I -> R) : R :=
+  match l with [] => 0 | a :: t => f a + lsum t f end.
+Lemma lsum_ext l f g : (forall i, In i l -> f i = g i) -> lsum l f = lsum l g.
+Proof.
+  induction l; intros H; cbn [lsum]; [reflexivity|].
+  rewrite (H a (or_introl eq_refl)), IHl; [reflexivity|]. intros; apply H; now right.
+Qed.
+Lemma lsum_zero l : lsum l (fun _ => 0) = 0.
+Proof. induction l; cbn [lsum]; [reflexivity|rewrite IHl; ring]. Qed.
+Lemma lsum_all_zero l f : (forall i, In i l -> f i = 0) -> lsum l f = 0.
+Proof. intros H. rewrite (lsum_ext l f (fun _ => 0) H). apply lsum_zero. Qed.
+Lemma lsum_scal l c f : lsum l (fun i => c * f i) = c * lsum l f.
+Proof. induction l; cbn [lsum]; [ring|rewrite IHl; ring]. Qed.
+Lemma lsum_scal_r l c f : lsum l (fun i => f i * c) = lsum l f * c.
+Proof. induction l; cbn [lsum]; [ring|rewrite IHl; ring]. Qed.
+Lemma lsum_plus l f g : lsum l (fun i => f i + g i) = lsum l f + lsum l g.
+Proof. induction l; cbn [lsum]; [ring|rewrite IHl; ring]. Qed.
+Lemma lsum_minus l f g : lsum l (fun i => f i - g i) = lsum l f - lsum l g.
+Proof. induction l; cbn [lsum]; [ring|rewrite IHl; ring]. Qed.
+Lemma lsum_app l1 l2 f : lsum (l1 ++ l2) f = lsum l1 f + lsum l2 f.
+Proof. induction l1; cbn [lsum app]; [ring|rewrite IHl1; ring]. Qed.
+Lemma lsum_swap l m (f : I -> I -> R) :
+  lsum l (fun i => lsum m (fun j => f i j)) = lsum m (fun j => lsum l (fun i => f i j)).
+Proof.
+  induction l; cbn [lsum].
+  - now rewrite lsum_zero.
+  - rewrite IHl, <- lsum_plus. reflexivity.
+Qed.
+
+Variable U : list I.                 (* the index set (row = column indices of the system) *)
+Variable dl : I -> I -> R.           (* its Kronecker delta *)
+Hypothesis dl_sum : forall a f, In a U -> lsum U (fun i => dl a i * f i) = f a.
+
+Definition lmv (A : I -> I -> R) (x : I -> R) (r : I) : R := lsum U (fun c => A r c * x c).
+Definition lmm (A P : I -> I -> R) (r c : I) : R := lsum U (fun t => A r t * P t c).
+
+Lemma lmv_assoc A P y r : lmv (lmm A P) y r = lmv A (lmv P y) r.
+Proof.
+  unfold lmv, lmm.
+  rewrite (lsum_ext U _ (fun c => lsum U (fun t => A r t * P t c * y c)))
+    by (intros; symmetry; apply lsum_scal_r).
+  rewrite lsum_swap. apply lsum_ext; intros t _.
+  rewrite <- lsum_scal. apply lsum_ext; intros. ring.
+Qed.
+
+Section Solve.
+Variables A B : I -> I -> R.
+Hypothesis BA : forall i j, In i U -> In j U -> lsum U (fun k => B i k * A k j) = dl i j.
+
+Theorem l_left_inverse_zero x :
+  (forall r, In r U -> lmv A x r = 0) -> forall c, In c U -> x c = 0.
+Proof.
+  intros H c Hc.
+  rewrite <- (dl_sum c x Hc).
+  rewrite (lsum_ext U _ (fun c' => lsum U (fun k => B c k * A k c' * x c'))).
+  2:{ intros c' Hc'. rewrite <- BA by assumption. symmetry. apply lsum_scal_r. }
+  rewrite lsum_swap.
+  apply lsum_all_zero. intros k Hk.
+  rewrite (lsum_ext U _ (fun c' => B c k * (A k c' * x c'))) by (intros; ring).
+  rewrite lsum_scal. fold (lmv A x k). rewrite H by assumption. ring.
+Qed.
+
+Theorem l_left_inverse_unique x y :
+  (forall r, In r U -> lmv A x r = lmv A y r) -> forall c, In c U -> x c = y c.
+Proof.
+  intros H c Hc.
+  enough (E : x c - y c = 0) by lra.
+  apply (l_left_inverse_zero (fun c => x c - y c)); [|assumption].
+  intros r Hr. unfold lmv.
+  rewrite (lsum_ext U _ (fun c => A r c * x c - A r c * y c)) by (intros; ring).
+  rewrite lsum_minus. specialize (H r Hr). unfold lmv in H. lra.
+Qed.
+
+(** CHANGE OF BASIS, function style.  A = operator assembled in the cardinal basis, Ab = operator
+    assembled in another basis, T = values of the new basis functions at the collocation points
+    (so that T y = cardinal coefficients = grid values of the function with coefficients y).  If
+    Ab = A T, A has a left inverse, x solves the cardinal system and y the other one (same
+    right-hand side), then y represents the SAME function, and every linear functional of the
+    grid values (the Deltas, pressures, ...) has the same value. *)
+Theorem l_basis_change (Ab T : I -> I -> R) (s x y : I -> R) :
+  (forall r c, In r U -> In c U -> Ab r c = lmm A T r c) ->
+  (forall r, In r U -> lmv A x r = s r) ->
+  (forall r, In r U -> lmv Ab y r = s r) ->
+  forall r, In r U -> x r = lmv T y r.
+Proof.
+  intros Hfac Hx Hy. apply l_left_inverse_unique.
+  intros r Hr. rewrite Hx by assumption. rewrite <- lmv_assoc, <- Hy by assumption.
+  unfold lmv. apply lsum_ext. intros c Hc. rewrite Hfac by assumption. reflexivity.
+Qed.
+
+Corollary l_same_functionals (Ab T : I -> I -> R) (s x y w : I -> R) :
+  (forall r c, In r U -> In c U -> Ab r c = lmm A T r c) ->
+  (forall r, In r U -> lmv A x r = s r) ->
+  (forall r, In r U -> lmv Ab y r = s r) ->
+  lsum U (fun r => w r * x r) = lsum U (fun r => w r * lmv T y r).
+Proof.
+  intros Hfac Hx Hy. apply lsum_ext. intros r Hr.
+  rewrite (l_basis_change Ab T s x y Hfac Hx Hy r Hr). reflexivity.
+Qed.
+End Solve.
+End LSum.
+
+(** ** the index set (particle, chi, rz, rp) of the Boltzmann system *)
+Definition idx := (nat * nat * nat * nat)%type.
+Definition p1 (t : idx) := fst (fst (fst t)).
+Definition p2 (t : idx) := snd (fst (fst t)).
+Definition p3 (t : idx) := snd (fst t).
+Definition p4 (t : idx) := snd t.
+Definition U4 (P m n : nat) : list idx :=
+  flat_map (fun b => flat_map (fun i => flat_map (fun j => map (fun k => (b, i, j, k)) (seq 0 n))
+                                                 (seq 0 n)) (seq 0 m)) (seq 0 P).
+Definition dl4 (s t : idx) : R := kron (p1 s) (p1 t) * (kron (p2 s) (p2 t) * (kron (p3 s) (p3 t) * kron (p4 s) (p4 t))).
+
+Lemma lsum_map {A B} (g : A -> B) l f : lsum (map g l) f = lsum l (fun a => f (g a)).
+Proof. induction l; cbn [lsum map]; [reflexivity|now rewrite IHl]. Qed.
+Lemma lsum_flat_map {A B} (g : A -> list B) l f : lsum (flat_map g l) f = lsum l (fun a => lsum (g a) f).
+Proof. induction l; cbn [lsum flat_map]; [reflexivity|now rewrite lsum_app, IHl]. Qed.
+Lemma lsum_seq n f : lsum (seq 0 n) f = rsum n f.
+Proof.
+  induction n; [reflexivity|]. rewrite seq_S, lsum_app, IHn. cbn [rsum lsum Nat.add]. ring.
+Qed.
+Lemma lsum_U4 P m n f :
+  lsum (U4 P m n) f = rsum P (fun b => rsum3 m n (fun i j k => f (b, i, j, k))).
+Proof.
+  unfold U4, rsum3. rewrite lsum_flat_map, lsum_seq. apply rsum_ext; intros b _.
+  rewrite lsum_flat_map, lsum_seq. apply rsum_ext; intros i _.
+  rewrite lsum_flat_map, lsum_seq. apply rsum_ext; intros j _.
+  now rewrite lsum_map, lsum_seq.
+Qed.
+Lemma in_U4 P m n t :
+  In t (U4 P m n) <-> (p1 t < P /\ p2 t < m /\ p3 t < n /\ p4 t < n)%nat.
+Proof.
+  destruct t as [[[b i] j] k]. unfold U4, p1, p2, p3, p4; cbn [fst snd].
+  rewrite in_flat_map. split.
+  - intros [b' [Hb H]]. apply in_flat_map in H as [i' [Hi H]]. apply in_flat_map in H as [j' [Hj H]].
+    apply in_map_iff in H as [k' [E Hk]]. inversion E; subst.
+    apply in_seq in Hb, Hi, Hj, Hk. lia.
+  - intros (Hb & Hi & Hj & Hk). exists b. split; [apply in_seq; lia|].
+    apply in_flat_map. exists i. split; [apply in_seq; lia|].
+    apply in_flat_map. exists j. split; [apply in_seq; lia|].
+    apply in_map_iff. exists k. split; [reflexivity|apply in_seq; lia].
+Qed.
+Lemma dl4_sum P m n a f : In a (U4 P m n) -> lsum (U4 P m n) (fun t => dl4 a t * f t) = f a.
+Proof.
+  intros H. apply in_U4 in H as (Hb & Hi & Hj & Hk). rewrite lsum_U4.
+  destruct a as [[[b i] j] k]. unfold dl4, p1, p2, p3, p4 in *; cbn [fst snd] in *.
+  rewrite (rsum_ext P _ (fun b' => kron b b' *
+     rsum3 m n (fun i' j' k' => kron i i' * (kron j j' * (kron k k' * f (b', i', j', k')))))).
+  2:{ intros b' _. unfold rsum3. rewrite <- rsum_scal. apply rsum_ext; intros.
+      rewrite <- rsum_scal. apply rsum_ext; intros. rewrite <- rsum_scal. apply rsum_ext; intros. ring. }
+  rewrite rsum_kron by assumption. unfold rsum3.
+  rewrite (rsum_ext m _ (fun i' => kron i i' *
+     rsum n (fun j' => rsum n (fun k' => kron j j' * (kron k k' * f (b, i', j', k')))))).
+  2:{ intros. rewrite <- rsum_scal. apply rsum_ext; intros. rewrite <- rsum_scal. reflexivity. }
+  rewrite rsum_kron by assumption.
+  rewrite (rsum_ext n _ (fun j' => kron j j' * rsum n (fun k' => kron k k' * f (b, i, j', k'))))
+    by (intros; apply rsum_scal).
+  rewrite rsum_kron by assumption. now rewrite rsum_kron.
+Qed.
+Lemma kron_sym i j : kron i j = kron j i.
+Proof. unfold kron. rewrite Nat.eqb_sym. reflexivity. Qed.
+
+(** the hypotheses "left inverse" are satisfiable on every index set, e.g. by the identity;
+    a 2 x 2 non-diagonal instance for the [rsum] version *)
+Example identity_left_inverse P m n :
+  forall i j, In i (U4 P m n) -> In j (U4 P m n) ->
+    lsum (U4 P m n) (fun k => dl4 i k * dl4 k j) = dl4 i j.
+Proof. intros i j Hi Hj. now rewrite dl4_sum. Qed.
+Example left_inverse_2x2 :
+  let A := fun r c : nat => match r, c with O, O => 2 | _, _ => 1 end in
+  let B := fun r c : nat => match r, c with O, O => 1 | O, S _ => -1 | S _, O => -1 | S _, S _ => 2 end in
+  forall i j, (i < 2)%nat -> (j < 2)%nat -> rsum 2 (fun k => B i k * A k j) = kron i j.
+Proof.
+  intros A B i j Hi Hj.
+  destruct i as [|[|i]]; [| |lia]; (destruct j as [|[|j]]; [| |lia]); cbn; unfold kron; cbn; ring.
+Qed.
